@@ -290,6 +290,38 @@ def check(ctx, rep, upto=None):
                 ct = norm(T_.call_term(bi))
                 if any(y[0] == 'field' and y[2] == statef for y in walk(ct[2][0])):
                     offenders.append((m[n_], None, 'modifies the state'))
+    # the state cell is only ever used as the receiver of an atomic operation inside set/get/is_set: a reference to it
+    # that is stored in a value (a drop guard ..) or handed to another function could modify it from code not analysed here
+    def mentions_state(x):
+        # a reference to the state cell itself (results of calls are values, not the cell)
+        if not isinstance(x, tuple) or not x:
+            return False
+        if x[0] == 'field' and x[2] == statef and peel_all(x[1]) == ('param', 1):
+            return True
+        if x[0] == 'call':
+            return False
+        return any(mentions_state(y) for y in x if isinstance(y, tuple))
+
+    def peel_all(x):
+        while x[0] in ('ref', 'deref', 'unsize', 'autoderef', 'load'):
+            x = x[1]
+        return x
+    for n_, ib_, T_ in (('set', sb, Ts), ('get', gb, Tg), ('is_set', ib, Ti)):
+        for bi, blk in enumerate(ib_.blocks):
+            if blk['cleanup'] or blk.get('dead'):
+                continue
+            for si, s in enumerate(blk['stmts']):
+                if s['k'] == 'assign' and s['rv']['k'] == 'agg' and s['rv'].get('ak') in ('adt', 'tuple', 'closure', 'array'):
+                    v = norm(T_.rvalue_term(s['rv'], bi, si))
+                    if mentions_state(v):
+                        offenders.append((m[n_], None, 'stores a reference to the state in a value (%s): it can be modified from a destructor / another function' % fmt(v)[:60]))
+            t = blk['term']
+            if t['k'] == 'call':
+                k = strip_generics(t.get('callee_full', ''))
+                ct = norm(T_.call_term(bi))
+                for ai, a in enumerate(ct[2] if ct[0] == 'call' else ()):
+                    if mentions_state(a) and not (k.startswith(AT) and ai == 0):
+                        offenders.append((m[n_], None, 'hands a reference to the state to %s' % k))
     for b in mac.all_bodies:
         nbodies += 1
         if b.path in allowed:
